@@ -377,9 +377,10 @@ def _b(x):
     return 'TOP'
 
 
-def pfx2(cfg):
+def pfx2(cfg, which='all'):
+    """which: 'tree' = key_prefix::shared_len (get / insert / remove), 'snapshot' = key_prefix_snapshot::shared_len (the iterators' seek)"""
     res = RuleResult('PFX-2', 'key_prefix::shared_len(k1, k2, clamp) returns min(index of the first differing byte, clamp) for every pair of words - evaluated over the abstraction {first differing byte index d in 0..8} x {clamp 0..7} with bytes below d equal, byte d different and all higher bytes unconstrained (byte-vector abstract interpretation with xor / trailing-zero-count intervals)')
-    fns = [f for f in cfg.functions if f.blocks and (f.cls.startswith('unodb::detail::key_prefix<') or f.cls == 'unodb::detail::key_prefix_snapshot') and f.short == 'shared_len']
+    fns = [f for f in cfg.functions if f.blocks and ((which in ('all', 'tree') and f.cls.startswith('unodb::detail::key_prefix<')) or (which in ('all', 'snapshot') and f.cls == 'unodb::detail::key_prefix_snapshot')) and f.short == 'shared_len']
     for f in fns:
         res.count('shared-length functions')
         res.functions.add(f.sig)
@@ -426,7 +427,7 @@ def pfx2(cfg):
         res.ob(ok, {'rule': 'PFX-2', 'function': sh(f.sig)[:80], 'site': fileline(f.loc), 'cases': cases, 'verdict': 'discharged' if ok else 'VIOLATION at ' + bad[0]})
         if not ok:
             res.find(f, f.loc, 'shared_len is not min(first differing byte, clamp): for %s the result is %s, expected %d - a wrong shared prefix length sends lookups into the wrong subtree or splits prefixes at the wrong byte' % bad, key='PFX-2:shared_len', config=cfg.name)
-    res.floor('shared-length functions', 2)
+    res.floor('shared-length functions', 2 if which != 'snapshot' else 1)
     return res
 
 
